@@ -364,6 +364,34 @@ fn long_inputs() -> Vec<(String, Vec<u8>)> {
     for e in ["127", "128", "-128", "-129", "255", "256", "32767", "-32768", "32768", "65535", "65536", "-65536", "2147483647", "-2147483648", "2147483648", "4294967296", "9223372036854775807", "-9223372036854775808", "18446744073709551616"] {
         v.push((format!("exponent-{}", e), format!("N 1E{},1e{}\nA:B 1E{}\nN? 1E{},2\nA:B:C? 1.5E{}\n", e, e, e, e, e).into_bytes()));
     }
+    v.push(("valid-70000".into(), rep("A\n", 70000)));
+    v.push(("queries-70000".into(), rep("A?\n", 70000)));
+    v.push(("commas-5000".into(), [b"N ".to_vec(), rep(",", 5000), b"\n".to_vec()].concat()));
+    v.push(("hashes-5000".into(), [b"C ".to_vec(), rep("#", 5000), b"\n".to_vec()].concat()));
+    v.push(("quotes-5001".into(), [b"A:A ".to_vec(), rep("\"", 5001), b"\n".to_vec()].concat()));
+    v.push(("question-marks-5000".into(), [b"N".to_vec(), rep("?", 5000), b"\n".to_vec()].concat()));
+    v.push(("stars-5000".into(), [rep("*", 5000), b"\n".to_vec()].concat()));
+    v.push(("signed-radix".into(), b"N -#H10,+#Q7\nN #H-10,#B+1\nN? -#B1,#HFFFFFFFFFFFFFFFFFFFFFFFFFFFFFFFFFF\n".to_vec()));
+    v.push(("block-width9-len0".into(), b"C #9000000000\nC #9000000003abc\nC #10\nC #0\n".to_vec()));
+    // a very long run of one character in parameter position and in header position (deep
+    // recursion or quadratic behaviour in a sub-parser shows as a stack overflow or a time-out)
+    for c in [b'(', b')', b'[', b'{', b'<', b'@', b'!', b'$', b'%', b'&', b'/', b'=', b'^', b'~', b'|', b'\\', b'`', b'-', b'+', b'.', b'E', b'e', b'0', b'9', b'\'', b' ', 0x80u8, 0xC3u8] {
+        let mut s = b"A:A ".to_vec();
+        s.extend(std::iter::repeat(c).take(200_000));
+        s.push(b'\n');
+        v.push((format!("param-run-0x{:02x}", c), s));
+    }
+    for c in [b'(', b'[', b'A', b'_', b'1', b'?', b'*', b'#', b'"', b','] {
+        let mut s: Vec<u8> = std::iter::repeat(c).take(200_000).collect();
+        s.push(b'\n');
+        v.push((format!("header-run-0x{:02x}", c), s));
+    }
+    let mut nested = b"A:A ".to_vec();
+    for _ in 0..50_000 {
+        nested.extend_from_slice(b"(@1,");
+    }
+    nested.push(b'\n');
+    v.push(("nested-expression-50000".into(), nested));
     v.push(("nonascii".into(), (0x80u8..=0xff).chain(std::iter::once(b'\n')).collect()));
     v.push(("all-bytes".into(), (0u8..=255).chain(std::iter::once(b'\n')).collect()));
     v
